@@ -11,4 +11,10 @@ CHECKS = {
   "note": "trusted: the toolchain's x86asm/arm64asm copies decode MOV imm/JMP [reg]/JMP rel32/MOVZ/MOVK/LDR/BR correctly; arm64/386 files are compiled on amd64.",
   "technique": "property-based testing (rapid) with exhaustive lane/boundary sweeps; differential symbolic evaluation via reference decoder",
  },
+ "C20": {
+  "text": "Exploration: in-package test of the stub allocator. rapid-drawn request-size sequences up to and beyond exhaustion, 2..16 spinning concurrent requesters under the race detector, the public Acquire with ordinary and kernel-rejected sizes, and fault injection (children with RLIMIT_AS lowered so every mmap fails and the fallback serves ordinary concurrent requests). Oracle: pairwise disjoint, inside the reserve, >= requested, writable through stub.Write, executable (executed).",
+  "design_ref": "DESIGN.md 3/C20",
+  "note": "scheduler not owned: the concurrent units are sound seeded stress searches; trusted: /proc/self/maps, RLIMIT_AS semantics.",
+  "technique": "property-based testing (rapid) + randomized concurrent stress under -race + rlimit fault injection",
+ },
 }
